@@ -85,6 +85,7 @@ type Ctx struct {
 	caseSuffix    string
 	knownConst    map[string]string
 	storeOf       map[string]storeRec
+	frameRecs     map[string]frameRec
 	boolCache     map[string]bool
 	deadTags      map[string]bool
 	copyRecs      map[string]copyRec
@@ -103,7 +104,7 @@ const globalBase = 1000
 func NewCtx(w *World, intMode bool) *Ctx {
 	c := &Ctx{W: w, intMode: intMode, strLits: map[string]Term{}, memSort: map[string]string{},
 		memInit: map[string]Term{}, globals: map[*ssa.Global]Term{}, assumed: map[string]bool{},
-		ufDecl: map[string]bool{}, sites: map[string]int{}, depthCap: 8, epochCache: map[string]Term{}, defCache: map[string]string{}, baseArrays: map[string][]baseArr{}, refStruct: map[string]Term{}, storeOf: map[string]storeRec{}, boolCache: map[string]bool{}, deadTags: map[string]bool{}, copyRecs: map[string]copyRec{}, mergeOf: map[string][]Term{}, oldRefs: map[string]bool{}, knownConst: map[string]string{}}
+		ufDecl: map[string]bool{}, sites: map[string]int{}, depthCap: 8, epochCache: map[string]Term{}, defCache: map[string]string{}, baseArrays: map[string][]baseArr{}, refStruct: map[string]Term{}, storeOf: map[string]storeRec{}, frameRecs: map[string]frameRec{}, boolCache: map[string]bool{}, deadTags: map[string]bool{}, copyRecs: map[string]copyRec{}, mergeOf: map[string][]Term{}, oldRefs: map[string]bool{}, knownConst: map[string]string{}}
 	if intMode {
 		c.idxSort = SInt
 	} else {
